@@ -120,6 +120,14 @@ class ExecAnalysis:
         self.events: List[tuple] = []   # (seq, event)
 
 
+def _is_a(out: dict, names: Any) -> bool:
+    """The raised exception is an instance of one of the named classes (a subclass counts: which class of the documented
+    family tawazi raises is not part of any property)."""
+    exc = out.get("exc")
+    mro = [c.__name__ for c in type(exc).__mro__] if isinstance(exc, BaseException) else [out.get("type")]
+    return bool(set(mro) & set(names))
+
+
 def _program_tags(spec: dict) -> List[str]:
     """Facts about the generated program (the input), used to pin known findings to the inputs they are about."""
     tags = []
@@ -294,7 +302,7 @@ def _outcome(run: Any, key: tuple, ex: Expect, out: dict) -> List[dict]:
     elif ex.kind == "raises":
         if out["status"] == "ok":
             V.append(viol("noraise", f"expected one of {ex.raises}, returned {out['value']!r:.200}", op=key))
-        elif out["status"] == "exc" and out["type"] not in ex.raises:
+        elif out["status"] == "exc" and not _is_a(out, ex.raises):
             V.append(viol("wrongexc", f"expected one of {ex.raises}, raised {out['type']}: {out['msg'][:200]}", op=key,
                           tags=["exc:" + out["type"]], exc_type=out["type"]))
         elif out["status"] == "exc" and ex.fault_paths:
@@ -305,7 +313,7 @@ def _outcome(run: Any, key: tuple, ex: Expect, out: dict) -> List[dict]:
                           tags=["exc:" + out["type"]], exc_type=out["type"], exc_msg=out["msg"][:300]))
     elif ex.kind == "rerun":
         if out["status"] == "exc":
-            if out["type"] != "TawaziUsageError":
+            if not _is_a(out, ("TawaziUsageError",)):
                 V.append(viol("rerun", f"second run raised {out['type']}: {out['msg'][:200]} instead of refusing", op=key,
                               tags=["exc:" + out["type"]]))
         elif freeze(out["value"]) != freeze(ex.value):
@@ -439,7 +447,7 @@ def _failure_identity(run: Any, key: tuple, ex: Expect, out: dict) -> List[dict]
         return V  # the original exception itself (BaseException from a node, or a node without location)
     inst = run.op_inst.get(key)
     table = run.tables.get(run.inst_table.get(inst, ""), {}) if inst else {}
-    if out["type"] != "TawaziBaseException":
+    if not _is_a(out, ("TawaziBaseException",)):
         V.append(viol("wrongexc", f"call raised {out['type']}: {out['msg'][:200]} which is neither a wrapped nor an injected failure",
                       op=key, tags=["exc:" + out["type"]], exc_type=out["type"]))
         return V
